@@ -3,7 +3,8 @@
 // Files: main.go (transactions, blocks, corpus, generators), boundary.go (the CompactSize ranges as an input class: writers /
 // readers directly, one length field at a range end, the same through the serialisers and inside blocks), direct.go (exported
 // helpers on short buffers), obj.go (one Block object through histories), client.go (the Block object of a wanted block inside the
-// node: real client/network handlers, refused copies, the disk cache through the real get_block_from_disk_cache).
+// node: real client/network handlers, refused copies, the disk cache through the real get_block_from_disk_cache), watchdog.go
+// (a call into the decoder that does not return is reported with the case in flight).
 // Model: lean oracle_c09 (Model/Wire.lean). Independent reference for the property predicate: refParse /
 // refSerialize below, written from BIP144 and Bitcoin Core's UnserializeTransaction / ReadCompactSize.
 package main
